@@ -622,7 +622,11 @@ func p7views(p *pkcs7.PKCS7) []p7signer {
 		ias := s.IssuerAndSerialNumber
 		for _, c := range p.Certificates { // the certificate the library's verifier selects: first with this issuer and serial
 			if ias.SerialNumber != nil && c.SerialNumber.Cmp(ias.SerialNumber) == 0 && bytes.Equal(c.RawIssuer, ias.IssuerName.FullBytes) {
-				v.cert, v.pub = bytes.Clone(c.Raw), c.PublicKey
+				// "any part of the signer certificate": tbsCertificate, signatureAlgorithm, signatureValue as the library parsed them.
+				// (Certificate.Raw may carry further elements after signatureValue that the X.509 parser - like crypto/x509 - ignores;
+				// the BER normaliser can move bytes there when an element's declared length overruns its parent.)
+				v.cert = append(append(bytes.Clone(c.RawTBSCertificate), byte(c.SignatureAlgorithm)), c.Signature...)
+				v.pub = c.PublicKey
 				break
 			}
 		}
@@ -744,7 +748,7 @@ func p7adapter(t *Trace, env *Env) *Mismatch {
 							panic(r)
 						}
 						_, _, note := p7apply(m, a)
-						mm = &Mismatch{Step: i, Kind: "panic", Got: msg, Exp: "an error or a result", Note: note + "\n" + string(debug.Stack())}
+						mm = &Mismatch{Step: i, Kind: "panic", Got: msg + " [" + note + "]", Exp: "an error or a result", Note: note + "\n" + string(debug.Stack())}
 					}
 				}()
 				switch op {
@@ -795,7 +799,7 @@ func p7refCheck(i int, m *p7msg, p0 *pkcs7.PKCS7, ref []p7signer) *Mismatch {
 	for _, e := range m.signers {
 		found := false
 		for _, r := range ref {
-			if bytes.Equal(r.cert, e.cert.Raw) {
+			if bytes.HasPrefix(r.cert, e.cert.RawTBSCertificate) && bytes.HasSuffix(r.cert, e.cert.Signature) {
 				found = true
 			}
 		}
@@ -863,7 +867,7 @@ func p7verify(i int, st Step, m *p7msg, a *p7alt, ref []p7signer, exp []byte) *M
 		content, exp = content[:c], exp[:c] // digest-only: the octets of the supplied digest that the signature scheme takes (the specification says how many)
 	}
 	if d := p7differs(p7views(p), ref, content, exp, trust); d != "" {
-		return &Mismatch{Step: i, Kind: "forgery", Got: "verifies although it differs from what was signed in: " + d, Exp: "an error, or the signed " + d, Note: note}
+		return &Mismatch{Step: i, Kind: "forgery", Got: "verifies although it differs from what was signed in: " + d + " [" + note + "]", Exp: "an error, or the signed " + d, Note: note}
 	}
 	if must == "fail" {
 		if a == nil {
@@ -901,6 +905,7 @@ func p7open(i int, st Step, m *p7msg, a *p7alt, exp []byte) *Mismatch {
 
 func p7judgeOpen(i int, st Step, err error, pt, exp []byte, note string) *Mismatch {
 	same := err == nil && bytes.Equal(pt, exp)
+	leak := same && len(exp) > 0 // an empty content is "yielded" by any reply without bytes (e.g. an altered message without ciphertext): nothing is disclosed
 	got := p7errs(err)
 	if err == nil {
 		got = "ok: " + hx(pt)
@@ -915,14 +920,14 @@ func p7judgeOpen(i int, st Step, err error, pt, exp []byte, note string) *Mismat
 			return &Mismatch{Step: i, Kind: "errmismatch", Got: got, Exp: "error", Note: note + "; yields the content: " + boolStr(same)}
 		}
 	}
-	if st.Has("isrcpt") && !st.Bool("isrcpt") && same {
-		return &Mismatch{Step: i, Kind: "forgery", Got: "a key outside the recipient set yields the content", Exp: "error", Note: note}
+	if st.Has("isrcpt") && !st.Bool("isrcpt") && leak {
+		return &Mismatch{Step: i, Kind: "forgery", Got: "a key outside the recipient set yields the content [" + note + "]", Exp: "error", Note: note}
 	}
-	if st.Has("same") && !st.Bool("same") && same {
-		return &Mismatch{Step: i, Kind: "forgery", Got: "another pre-shared key yields the content", Exp: "error or other bytes", Note: note}
+	if st.Has("same") && !st.Bool("same") && leak {
+		return &Mismatch{Step: i, Kind: "forgery", Got: "another pre-shared key yields the content [" + note + "]", Exp: "error or other bytes", Note: note}
 	}
 	if st.Bool("aead") && err == nil && !same {
-		return &Mismatch{Step: i, Kind: "forgery", Got: "authenticated content cipher released other bytes: " + hx(pt), Exp: "error or " + hx(exp), Note: note}
+		return &Mismatch{Step: i, Kind: "forgery", Got: "authenticated content cipher released other bytes: " + hx(pt) + " [" + note + "]", Exp: "error or " + hx(exp), Note: note}
 	}
 	pred := st.Str("pred")
 	if (pred == "M" && !same) || (pred == "err" && err == nil) || (pred == "unspec" && same) {
@@ -962,7 +967,7 @@ func p7openVerify(i int, st Step, m *p7msg, a *p7alt, ref []p7signer, exp []byte
 	}
 	if err == nil {
 		if d := p7differs(p7views(p), ref, pt, exp, trust); d != "" {
-			return &Mismatch{Step: i, Kind: "forgery", Got: "decrypts and verifies although it differs from what was signed in: " + d, Exp: "an error, or the signed " + d, Note: note}
+			return &Mismatch{Step: i, Kind: "forgery", Got: "decrypts and verifies although it differs from what was signed in: " + d + " [" + note + "]", Exp: "an error, or the signed " + d, Note: note}
 		}
 		if st.Str("must") == "fail" && a != nil {
 			panic("harness: pkcs7: alteration of protected field left every protected item unchanged (" + note + ")")
